@@ -21,7 +21,10 @@ theorem gen_lon_region_eq_model (w e s n : Rat) : Gen.lonRegion w e s n = lonReg
 
 /-- Bridge: the longitude branch (`% 360`, or shift to `[-180, 180)`) as regenerated from the source equals the model's. -/
 theorem gen_lon_point_eq_model (i360 : Bool) (lon : Rat) : Gen.lonPoint i360 lon = lonPoint i360 lon := by
-  unfold Gen.lonPoint lonPoint; cases i360 <;> simp
+  unfold Gen.lonPoint lonPoint
+  cases i360
+  · simp [pyMod_pyMod_add lon 180 360 (by norm_num)]
+  · simp
 
 /-- Bridge: `_check_geographic_region` as regenerated from the source equals the model's range checks. -/
 theorem gen_check_geo_region_eq_model (w e s n : Rat) : Gen.checkGeoRegion w e s n = checkGeoRegion w e s n := by
